@@ -274,6 +274,24 @@ def run(ctx):
         return any(e is g for g in ga) or (isinstance(e, ast.Name) and e.id in attr_names)
     cmps = [c for c in walk_own(fb.node) if isinstance(c, ast.Compare) and len(c.ops) == 1 and isinstance(c.ops[0], ast.Eq)
             and ((is_attr_value(c.left) and norm(c.comparators[0]) == valuep) or (is_attr_value(c.comparators[0]) and norm(c.left) == valuep))]
+    # `any(attr == v for v in values)` with the searched value handed over as a 1-tuple: the same comparison per alternative
+    any_calls = []
+    for c_ in walk_own(fb.node):
+        if isinstance(c_, ast.Call) and isinstance(c_.func, ast.Name) and c_.func.id == "any" and len(c_.args) == 1 \
+                and isinstance(c_.args[0], (ast.GeneratorExp, ast.ListComp)) and len(c_.args[0].generators) == 1:
+            g_ = c_.args[0].generators[0]
+            e_ = c_.args[0].elt
+            if isinstance(g_.target, ast.Name) and norm(g_.iter) == valuep and not g_.ifs and isinstance(e_, ast.Compare) and len(e_.ops) == 1 \
+                    and isinstance(e_.ops[0], ast.Eq) and ((is_attr_value(e_.left) and norm(e_.comparators[0]) == g_.target.id)
+                                                           or (is_attr_value(e_.comparators[0]) and norm(e_.left) == g_.target.id)):
+                any_calls.append(c_)
+    for c_ in walk_own(fb.node):
+        if isinstance(c_, ast.Compare) and len(c_.ops) == 1 and isinstance(c_.ops[0], (ast.In, ast.NotIn)) and is_attr_value(c_.left) \
+                and norm(c_.comparators[0]) == valuep:
+            ctx.viol("F4", fb, c_, "`%s`: a containment test on a tuple first compares by identity, so an attribute value that is the very object "
+                     "searched for is selected even when `==` says it is not equal (NaN, objects with their own __eq__)" % norm(c_),
+                     construct="_filter_by_name: containment instead of ==")
+    cmps = cmps + any_calls
     verdict_names = {t.id for n_ in walk_own(fb.node) if isinstance(n_, ast.Assign) and any(n_.value is c for c in cmps)
                      for t in n_.targets if isinstance(t, ast.Name)}
     protected = False
@@ -379,12 +397,22 @@ def _binds_name_value(nodevar, args, keywords):
     """the call binds (node, name, value) of _filter_by_name to (<nodevar>, name, value), positionally or by keyword"""
     order = ["node", "name", "value"]
     b = {}
+
+    def txt(a):
+        if isinstance(a, ast.Name) and _CURRENT[0] is not None and a.id not in ("name", "value") and a.id != nodevar:
+            from .common import resolve_local
+            r_ = resolve_local(_CURRENT[0], a)  # a local holding the value (e.g. `values = (value,)`)
+            if r_ is not None:
+                return norm(r_)
+        return norm(a)
     for prm, a in zip(order, args):
-        b[prm] = norm(a)
+        b[prm] = txt(a)
     for k in keywords:
         if k.arg is None or k.arg in b:
             return False
-        b[k.arg] = norm(k.value)
+        b[k.arg] = txt(k.value)
+    if b.get("value") in ("(value,)", "[value]"):
+        b["value"] = "value"  # the searched value handed over as the only alternative
     if nodevar is None:
         return b == {"name": "name", "value": "value"}
     return b == {"node": nodevar, "name": "name", "value": "value"}
